@@ -26,6 +26,13 @@ ATTRS = {
     's': (4, 'str', True), 'u': (5, 'str', False),
     'f': (6, 'bool', True), 'g': (7, 'bool', False),
 }
+# attribute paths of the join schema (tools/c01_join.py, coq/Model/C01Join.v): P as above + group -> G -> dept -> D
+JOIN_ATTRS = {
+    'group.id': (8, 'int', True),
+    'group.number': (11, 'int', False), 'group.title': (12, 'str', True), 'group.dept.id': (13, 'int', True), 'group.level': (14, 'int', True),
+    'group.dept.name': (21, 'str', False), 'group.dept.code': (22, 'int', True), 'group.dept.open': (23, 'bool', False),
+}
+ATTRS.update(JOIN_ATTRS)
 BY_ID = {v[0]: k for k, v in ATTRS.items()}
 
 
@@ -66,6 +73,7 @@ def fresh_real_db():
 
 
 def attr_nullable(P, name):
+    if '.' in name: return ATTRS[name][2]
     return bool(getattr(P, name).nullable)
 
 
@@ -317,9 +325,14 @@ def param_index(key):
     return int(name[1:])
 
 
+COLUMN_HOOK = [None]      # optional function (alias, column name) -> column id, set by the join harness
+
+
 def qx(x):
     """Pony's list SQL AST -> Coq term of type qx (raises Unmodelled for nodes outside the modelled fragment)."""
     t = x[0]
+    if t == 'COLUMN' and COLUMN_HOOK[0] is not None:
+        return '(QCol %d)' % COLUMN_HOOK[0](x[1], x[2])
     if t == 'VALUE':
         v = x[1]
         if v is None: return '(QVal QLNone)'
@@ -587,7 +600,8 @@ LIKE_POOL = ('a', 'ab', '', '!', 'a!', '!a', 'a!b', '%', 'a%', '_', 'a_b', '!%',
 class Gen(object):
     """Type-directed random generator of well-formed (wf) typed expressions. Parameter values are allocated on the fly:
     self.params : index -> value, self.ptypes : index -> type name or None."""
-    def __init__(self, rng, ext=False, none_params=True):
+    def __init__(self, rng, ext=False, none_params=True, pools=None):
+        self.pools = pools or {'int': INT_LEAF_ATTRS, 'str': STR_LEAF_ATTRS, 'bool': BOOL_LEAF_ATTRS}
         self.rng = rng
         self.ext = ext          # also produce the search-only node kinds
         self.none_params = none_params
@@ -609,7 +623,7 @@ class Gen(object):
 
     def leaf(self, t, force_attr):
         rng = self.rng
-        pool = {'int': INT_LEAF_ATTRS, 'str': STR_LEAF_ATTRS, 'bool': BOOL_LEAF_ATTRS}[t]
+        pool = self.pools[t]
         if force_attr or rng.random() < 0.6: return ('attr', rng.choice(pool))
         if rng.random() < 0.4: return self.new_param(t)
         if t == 'int': return ('int', rng.choice(INT_POOL))
@@ -722,7 +736,7 @@ class Gen(object):
 def random_row(rng, null_rate=0.3):
     row = {'id': None}
     for name, (i, t, n) in ATTRS.items():
-        if name == 'id': continue
+        if name == 'id' or '.' in name: continue
         if n and rng.random() < null_rate: row[name] = None
         elif t == 'int': row[name] = rng.choice((-7, -3, -2, -1, 0, 1, 2, 3, 7))
         elif t == 'str': row[name] = rng.choice(STR_POOL)
